@@ -14,6 +14,8 @@ import (
 
 const upSlack = 2 * time.Second
 
+var nonRecoveries int
+
 func roleName(active bool) string {
 	if active {
 		return "active"
@@ -49,6 +51,11 @@ func keepConnecting(r *lc.Rig, stop chan struct{}) {
 // runScenario opens, drives traffic until a round trip succeeds on a generation that uses a Normal
 // plan (i.e. after every scripted failure has been consumed), judges, closes and judges again.
 func runScenario(c *vh.Ctx, sc scenario) {
+	if nonRecoveries >= 12 {
+		// the library does not reconnect at all: the verdict is clear, do not spend the whole budget
+		c.Count("e2e/skipped-after-12-non-recoveries")
+		return
+	}
 	planFn := func(n int) lc.Plan {
 		if n < 0 {
 			return lc.Plan{}
@@ -75,7 +82,13 @@ func runScenario(c *vh.Ctx, sc scenario) {
 		return
 	}
 	// drive: keep trying a round trip until one succeeds AFTER all scripted plans were consumed
-	deadline := time.Now().Add(8 * time.Second)
+	// 8 s to recover; once several scenarios have failed to recover the window shrinks so that a
+	// library that never reconnects does not cost 8 s per scenario
+	recoverWindow := 8 * time.Second
+	if nonRecoveries >= 4 {
+		recoverWindow = 1500 * time.Millisecond
+	}
+	deadline := time.Now().Add(recoverWindow)
 	recovered := false
 	pokes := 0
 	for time.Now().Before(deadline) {
@@ -111,6 +124,7 @@ func runScenario(c *vh.Ctx, sc scenario) {
 		time.Sleep(time.Millisecond)
 	}
 	if !recovered {
+		nonRecoveries++
 		c.Fail("C11: no working Selected session after the link failures (no successful round trip on a fresh generation within 8 s)",
 			fmt.Sprintf("%s plans=%d dials=%d state=%v", desc(), len(sc.plans), r.Dials(), r.Conn.State()))
 	} else if st := r.Conn.State(); st != hsms.SelectedState {
